@@ -124,6 +124,11 @@ func writeFacts(repo, out string) error {
 	}
 	stmtPollKeeps := false
 	copyFresh := false
+	// F8: the panic of an interrupt function is not recovered by try statements:
+	//  pollsVia: every receive from the Interrupt channel hands the function to rt.interrupt
+	//  notes:    interrupt = { halting := true; defer func(){ rt.halting = halting }(); function(); halting = false }
+	//  tryLets:  the deferred function of tryCatchEvaluate starts with `if rt.halting { return }`, before recover()
+	pollsVia, pollCount, notes, tryLets := true, 0, false, false
 
 	for _, f := range files {
 		base := filepath.Base(f)
@@ -140,6 +145,82 @@ func writeFacts(repo, out string) error {
 				continue
 			}
 			name := fd.Name.Name
+			ast.Inspect(fd.Body, func(x ast.Node) bool {
+				cc, isCC := x.(*ast.CommClause)
+				if !isCC || cc.Comm == nil || !hasSel(cc.Comm, "Interrupt") {
+					return true
+				}
+				pollCount++
+				via := false
+				for _, st := range cc.Body {
+					if es, ok := st.(*ast.ExprStmt); ok {
+						if c, ok := es.X.(*ast.CallExpr); ok {
+							if se, ok := c.Fun.(*ast.SelectorExpr); ok && se.Sel.Name == "interrupt" && len(c.Args) == 1 {
+								via = true
+							} else {
+								via = false // the received function called in some other way
+								break
+							}
+						}
+					}
+				}
+				pollsVia = pollsVia && via
+				return true
+			})
+			if name == "interrupt" && fd.Recv != nil && len(fd.Body.List) == 4 && len(fd.Type.Params.List) == 1 {
+				param := fd.Type.Params.List[0].Names[0].Name
+				a0, ok0 := fd.Body.List[0].(*ast.AssignStmt)
+				d1, ok1 := fd.Body.List[1].(*ast.DeferStmt)
+				c2, ok2 := fd.Body.List[2].(*ast.ExprStmt)
+				a3, ok3 := fd.Body.List[3].(*ast.AssignStmt)
+				if ok0 && ok1 && ok2 && ok3 && len(a0.Lhs) == 1 && len(a3.Lhs) == 1 {
+					v, isV := a0.Lhs[0].(*ast.Ident)
+					t, isT := a0.Rhs[0].(*ast.Ident)
+					v3, isV3 := a3.Lhs[0].(*ast.Ident)
+					f3, isF3 := a3.Rhs[0].(*ast.Ident)
+					call, isCall := c2.X.(*ast.CallExpr)
+					good := isV && isT && isV3 && isF3 && isCall && t.Name == "true" && f3.Name == "false" && v.Name == v3.Name && a0.Tok.String() == ":="
+					if good {
+						fn, isFn := call.Fun.(*ast.Ident)
+						good = isFn && fn.Name == param && len(call.Args) == 0
+					}
+					if good {
+						// defer func() { rt.halting = <v> }()
+						fl, isFL := d1.Call.Fun.(*ast.FuncLit)
+						good = isFL && len(fl.Body.List) == 1
+						if good {
+							as, isAs := fl.Body.List[0].(*ast.AssignStmt)
+							good = isAs && len(as.Lhs) == 1 && hasSel(as.Lhs[0], "halting")
+							if good {
+								r, isR := as.Rhs[0].(*ast.Ident)
+								good = isR && r.Name == v.Name
+							}
+						}
+					}
+					notes = good
+				}
+			}
+			if name == "tryCatchEvaluate" {
+				for _, st := range fd.Body.List {
+					ds, ok := st.(*ast.DeferStmt)
+					if !ok {
+						continue
+					}
+					fl, ok := ds.Call.Fun.(*ast.FuncLit)
+					if !ok || len(fl.Body.List) < 2 {
+						continue
+					}
+					ifs, ok := fl.Body.List[0].(*ast.IfStmt)
+					if !ok || ifs.Init != nil || ifs.Else != nil || len(ifs.Body.List) != 1 {
+						continue
+					}
+					se, isSel := ifs.Cond.(*ast.SelectorExpr)
+					ret, isRet := ifs.Body.List[0].(*ast.ReturnStmt)
+					if isSel && se.Sel.Name == "halting" && isRet && len(ret.Results) == 0 {
+						tryLets = true
+					}
+				}
+			}
 			ast.Inspect(fd.Body, func(x ast.Node) bool {
 				if as, ok := x.(*ast.AssignStmt); ok {
 					for _, l := range as.Lhs {
@@ -232,6 +313,19 @@ func writeFacts(repo, out string) error {
 						}
 					}
 				}
+				// `rt.halting = false` (a constant stored in a field of the runtime) may precede the poll
+				for len(list) > k {
+					as, ok := list[k].(*ast.AssignStmt)
+					if !ok || len(as.Lhs) != 1 || len(as.Rhs) != 1 {
+						break
+					}
+					_, isSel := as.Lhs[0].(*ast.SelectorExpr)
+					lit, isLit := as.Rhs[0].(*ast.Ident)
+					if !isSel || !isLit || (lit.Name != "false" && lit.Name != "true") {
+						break
+					}
+					k++
+				}
 				pollTop[name] = len(list) > k && isPollIf(list[k], false)
 				if name == "cmplEvaluateNodeStatement" && len(list) > k {
 					stmtPollKeeps = pollKeepsLabels(list[k])
@@ -321,6 +415,10 @@ func writeFacts(repo, out string) error {
 	b.WriteString("]\n\n")
 	fmt.Fprintf(&b, "def forEmptyBodyPoll : Bool := %v\n\n", forPoll)
 	fmt.Fprintf(&b, "def stmtPollKeepsLabels : Bool := %v\n\n", stmtPollKeeps)
+	fmt.Fprintf(&b, "def interruptPolls : Nat := %d\n\n", pollCount)
+	fmt.Fprintf(&b, "def pollsRunInterrupt : Bool := %v\n\n", pollsVia && pollCount > 0)
+	fmt.Fprintf(&b, "def interruptNotesPanic : Bool := %v\n\n", notes)
+	fmt.Fprintf(&b, "def tryLetsHaltPass : Bool := %v\n\n", tryLets)
 	fmt.Fprintf(&b, "def copyFreshHandle : Bool := %v\n\n", copyFresh)
 	b.WriteString("def evaluatorLoops : List (String × Bool) := [")
 	for i, l := range loops {
